@@ -505,3 +505,71 @@ def fd_weights_exact_cases(fb):
                 if not ok:
                     bad.append(dict(nodes=name, x0=x0, n=n, row_n=np.asarray(r).tolist()[:5], exact_row_n=[float(v) for v in ref[n]][:5]))
     return cnt, bad
+
+
+def taylor_cases(fb):
+    """C17 on concrete functions with known series (entire, pole or branch point at distance >= 1.6): with the default radius and
+    n <= 20 the run is neither degenerate nor failed, at least n+1 coefficients come back, and every coefficient is within
+    100 x its error estimate + 100 x the rounding floor eps*max|f|/R^k on the final circle.  Also at z0 off the origin and for
+    other initial radii / step ratios."""
+    import math
+    fams = []
+    for a in (0.17, 0.2, 0.25, 0.5, 1.0, 2.0, 3.0):
+        fams.append(('exp(%gz)' % a, (lambda a: lambda z: np.exp(a * z))(a), (lambda a: lambda k, z0: np.exp(a * z0) * a ** k / math.factorial(k))(a)))
+    for b in (1.6, 2.0, 5.0, 30.0, 1.6 + 0.5j):
+        fams.append(('1/(%s-z)' % b, (lambda b: lambda z: 1 / (b - z))(b), (lambda b: lambda k, z0: (b - z0) ** -(k + 1.0))(b)))
+        fams.append(('-1/(%s-z)' % b, (lambda b: lambda z: -1 / (b - z))(b), (lambda b: lambda k, z0: -(b - z0) ** -(k + 1.0))(b)))
+    for b in (1.6, 3.0):
+        fams.append(('log(%g+z)' % b, (lambda b: lambda z: np.log(b + z))(b),
+                     (lambda b: lambda k, z0: (np.log(b + z0) if k == 0 else (-1) ** (k + 1) / (k * (b + z0) ** k)))(b)))
+    out = {}
+    with warnings.catch_warnings():
+        warnings.simplefilter('ignore')
+        for name, f, c in fams:
+            for z0, kw in [(0.0, {}), (0.2j, {}), (0.0, dict(r=1e-4)), (0.1, dict(step_ratio=1.3)), (0.0, dict(r=0.06, num_extrap=1))]:
+                worst = None
+                for n in (1, 2, 3, 5, 8, 10, 13, 14, 16, 18, 20):
+                    try:
+                        co, info = fb.taylor(f, z0, n=n, full_output=True, **kw)
+                    except Exception as e:
+                        worst = dict(n=n, raised=repr(e)[:100]); break
+                    true = np.array([c(k, z0) for k in range(len(co))])
+                    err = np.abs(co - true)[:n + 1]
+                    est = np.abs(info.error_estimate)[:n + 1]
+                    R = info.final_radius
+                    floor = np.finfo(float).eps * np.max(np.abs(f(z0 + R * np.exp(2j * np.pi * np.arange(64) / 64)))) / R ** np.arange(n + 1)
+                    honest = bool(np.all(err <= 100 * est + 100 * floor))
+                    default = not kw
+                    if len(co) < n + 1 or (default and (info.degenerate or info.failed)) or ((not info.degenerate) and (not info.failed) and not honest):
+                        k = int(np.argmax(err / (100 * est + 100 * floor)))
+                        worst = dict(n=n, degenerate=bool(info.degenerate), failed=bool(info.failed), iterations=int(info.iterations), final_radius=float(R), k=k,
+                                     coefficient=str(co[k]), exact=str(true[k]), error_estimate=float(est[k]))
+                        break
+                oname = ','.join('%s=%s' % kv for kv in sorted(kw.items())) or 'default-options'
+                out['%s,z0=%s,%s' % (name, z0, oname)] = (worst is None, worst)
+    return out
+
+
+def dea3_layout_cases(dea3):
+    """dea3 on arrays of every memory layout (C, Fortran, transposed / strided views) that mix elements taking the Shanks
+    branch with elements taking the guards (constant triples, zeros, equally spaced terms): every element equals its scalar
+    evaluation bit for bit"""
+    bad = []
+    cnt = 0
+    base0 = np.array([[1.0, 5.0, 0.0], [2.0, 1.0, -3.0]])
+    base1 = np.array([[1.5, 5.0, 0.0], [3.0, 2.0, -1.0]])
+    base2 = np.array([[1.75, 5.0, 0.0], [4.0, 2.5, -0.5]])
+    with warnings.catch_warnings():
+        warnings.simplefilter('ignore')
+        layouts = [('C', lambda a: np.ascontiguousarray(a)), ('F', lambda a: np.asfortranarray(a)), ('transposed-view', lambda a: np.ascontiguousarray(a.T).T),
+                   ('strided-view', lambda a: np.repeat(a, 2, axis=1)[:, ::2]), ('3-d transposed', lambda a: np.transpose(np.stack([a, a + 1.0]), (2, 1, 0)))]
+        for name, mk in layouts:
+            e0, e1, e2 = mk(base0), mk(base1), mk(base2)
+            cnt += 1
+            r, a = dea3(e0, e1, e2)
+            for idx in np.ndindex(np.shape(e0)):
+                rs, as_ = dea3(float(e0[idx]), float(e1[idx]), float(e2[idx]))
+                if not (np.shape(r) == np.shape(e0) and (r[idx] == rs[0] or (np.isnan(r[idx]) and np.isnan(rs[0]))) and (a[idx] == as_[0] or (np.isnan(a[idx]) and np.isnan(as_[0])))):
+                    bad.append(dict(layout=name, index=idx, terms=(float(e0[idx]), float(e1[idx]), float(e2[idx])), in_array=(float(r[idx]), float(a[idx])), alone=(float(rs[0]), float(as_[0]))))
+                    break
+    return cnt, bad
